@@ -153,25 +153,38 @@ theorem static_init_print (P : Pools) (item : List Nat) (parts : List (List Nat 
   static_init_print_aux P item parts rest n i hi hl hv hparts hn p hp proto den hd hm
 
 /-! ### String initialisers
-`printStringInit` models `'"%s"' % str(value).encode("unicode-escape").decode("ascii")`.  Java's reading is
-`AgVerif.Spec.JavaLex.javaLex` (JLS 3.3 unicode translation + 3.10.5/3.10.7 string literals, C23's specification). -/
+The printer is `string(str(value))` (fixes/C04-string-initialiser-literal.diff): `printStringInit` is the model
+of writer.string() (AgVerif.JavaString.escape, constants regenerated from writer.py on every run).  Java's
+reading is `AgVerif.Spec.JavaLex.javaLex` (JLS 3.3 unicode translation + 3.10.5/3.10.7 string literals). -/
 
-/-- For every string made of `JavaSafe` code points (printable ASCII except `"` and `'`, backslash,
-    TAB/LF/CR, all of U+0100..U+FFFF) the printed String initialiser is one Java string literal that
-    denotes exactly the string (it coincides there with the literal of writer.string() as verified for C23; frozen copy AgVerif.C04Ref). -/
-theorem print_denotes_string_safe (s : List Nat) (h : ∀ c ∈ s, JavaSafe c) :
+/-- For EVERY string (any code points, surrogates and supplementary characters included) the printed
+    String initialiser is one Java string literal that denotes exactly the string's UTF-16 code units
+    (C23.literal_denotes applied to this printing site). -/
+theorem print_denotes_string (s : List Nat) (h : ∀ c ∈ s, AgVerif.Spec.JavaLex.IsCodePoint c) :
     AgVerif.Spec.JavaLex.javaLex (AgVerif.Spec.JavaLex.utf16 (printStringInit s))
+      = some (AgVerif.Spec.JavaLex.utf16 s) :=
+  print_string_all s h
+
+/-- The printer before the repair (`printStringInitOld`: Python unicode-escape between bare quotes) was
+    right exactly on the `JavaSafe` code points (printable ASCII except `"` and `'`, backslash,
+    TAB/LF/CR, all of U+0100..U+FFFF) … -/
+theorem print_denotes_string_old_safe (s : List Nat) (h : ∀ c ∈ s, JavaSafe c) :
+    AgVerif.Spec.JavaLex.javaLex (AgVerif.Spec.JavaLex.utf16 (printStringInitOld s))
       = some (AgVerif.Spec.JavaLex.utf16 s) :=
   print_string_safe s h
 
-/-- Outside that set the full statement is FALSE of the code (known finding
-    `string-initialiser-python-unicode-escape`): a double quote is printed unescaped and U+00E9 is
-    printed `\xe9`; neither text is a Java literal of the string. -/
-theorem string_initialiser_refuted :
-    AgVerif.Spec.JavaLex.javaLex (AgVerif.Spec.JavaLex.utf16 (printStringInit [0x61, 0x22, 0x62]))
+/-- … and wrong outside (the repaired defect `string-initialiser-python-unicode-escape`): a double
+    quote was printed unescaped and U+00E9 was printed `\xe9`; neither text is a Java literal of the
+    string.  The repaired printer handles both. -/
+theorem string_initialiser_old_refuted :
+    AgVerif.Spec.JavaLex.javaLex (AgVerif.Spec.JavaLex.utf16 (printStringInitOld [0x61, 0x22, 0x62]))
       ≠ some (AgVerif.Spec.JavaLex.utf16 [0x61, 0x22, 0x62]) ∧
-    AgVerif.Spec.JavaLex.javaLex (AgVerif.Spec.JavaLex.utf16 (printStringInit [0xe9])) = none := by
-  decide
+    AgVerif.Spec.JavaLex.javaLex (AgVerif.Spec.JavaLex.utf16 (printStringInitOld [0xe9])) = none ∧
+    AgVerif.Spec.JavaLex.javaLex (AgVerif.Spec.JavaLex.utf16 (printStringInit [0x61, 0x22, 0x62]))
+      = some (AgVerif.Spec.JavaLex.utf16 [0x61, 0x22, 0x62]) ∧
+    AgVerif.Spec.JavaLex.javaLex (AgVerif.Spec.JavaLex.utf16 (printStringInit [0xe9]))
+      = some (AgVerif.Spec.JavaLex.utf16 [0xe9]) :=
+  ⟨by decide, by decide, print_string_all _ (by decide), print_string_all _ (by decide)⟩
 
 /-! ### truncated input, in general -/
 
@@ -226,9 +239,11 @@ example :
   · exact Encodes.scalar 0x1f 1 [] _ (by decide) (by decide) (by decide) rfl
 example : (printInit "J" (.int 6 (-9223372036854775808))).bind (readBack "J")
     = some (.num (-9223372036854775808)) := by decide
-example : JavaSafe 0x5c ∧ JavaSafe 0x4e2d ∧ printStringInit [0x5c, 0x4e2d, 0x09]
+example : JavaSafe 0x5c ∧ JavaSafe 0x4e2d ∧ printStringInitOld [0x5c, 0x4e2d, 0x09]
     = [0x22, 0x5c, 0x5c, 0x5c, 0x75, 0x34, 0x65, 0x32, 0x64, 0x5c, 0x74, 0x22] := by
   refine ⟨by unfold JavaSafe; omega, by unfold JavaSafe; omega, by decide⟩
+-- a quote, U+00E9, a lone surrogate and U+1F600 satisfy the hypothesis of `print_denotes_string`
+example : ∀ c ∈ [0x22, 0xe9, 0xd800, 0x1f600], AgVerif.Spec.JavaLex.IsCodePoint c := by decide
 example : printInit "F" (.float 0x7fc00001) = some "Float.NaN".toList ∧
     printInit "D" (.double 0xfff0000000000000) = some "Double.NEGATIVE_INFINITY".toList ∧
     printInit "F" (.float 0x3f800000) = none := by decide
